@@ -251,6 +251,9 @@ func (incr *incremental[Obj]) commitStatus() (numErrors int) {
 			numErrors++
 		}
 
+		// The object to retry with if the operation had failed.
+		retryObj := result.original.(Obj)
+
 		current, exists, err := incr.table.CompareAndSwap(wtxn, result.rev, incr.config.SetObjectStatus(obj, status))
 		if errors.Is(err, statedb.ErrRevisionNotEqual) && exists {
 			// The object had changed. Check if the pending status still carries the same
@@ -266,6 +269,12 @@ func (incr *incremental[Obj]) commitStatus() (numErrors int) {
 				current = incr.config.CloneObject(current)
 				current = incr.config.SetObjectStatus(current, status)
 				_, _, err = incr.table.Insert(wtxn, current)
+
+				// The status was written onto a newer version of the object than
+				// the one that was reconciled. Retry with that version so that the
+				// status commit of the retry does not write the stale version back
+				// over it (e.g. revert the status of another reconciler).
+				retryObj = current
 			}
 		}
 
@@ -273,7 +282,7 @@ func (incr *incremental[Obj]) commitStatus() (numErrors int) {
 			// Reconciliation of the object had failed and the status was updated
 			// successfully (object had not changed). Queue the retry for the object.
 			newRevision := incr.table.Revision(wtxn)
-			incr.retries.Add(result.original.(Obj), newRevision, result.rev, false, result.err)
+			incr.retries.Add(retryObj, newRevision, result.rev, false, result.err)
 		}
 	}
 	return
